@@ -245,6 +245,36 @@ def learned_stream(rs, tier):
                                 arity=cfg["arity"], use_greedy_ordering=bool(rs.rand() < 0.5), random_seed=cfg["seed"])
             return root, X.shape[1], None
         out.append(("xpc", cfg, f, True))
+    # tall tables in other storage types (round 8): 70-160 thousand binary rows held as float16 / float64 column-major / uint8.
+    # A column then has more ones than float16 can count (65504): every statistic a learner takes has to be accumulated in a type
+    # that holds it.  Splitters that do not depend on distances; a slice threshold around the row count keeps the circuits small.
+    rs0, rs = rs, np.random.RandomState((int(rs.get_state()[1][0]) ^ 0x5EED) % (2 ** 31))   # own stream: the earlier families keep their draws
+    for i in range(4 if tier == "quick" else 16):
+        n = int(rs.choice([70000, 90000, 130000]))
+        storage = ["float16", "float64-column-major", "uint8", "float16"][i % 4]
+        if storage == "float16":      # every leaf slice (the whole table, or one class of it) must hold more ones than float16 counts
+            n = 160000
+        cfg = dict(kind="bin", tall=True, storage=storage, n=n, d=int(rs.randint(3, 5)),
+                   rows="random", cols="random", leaf="mle", min_rows=int(n * (2.0 if storage == "float16" else [0.9, 2.0][(i // 4 + i) % 2])), min_cols=1,
+                   entry=["learn_spn", "learn_estimator", "learn_spn", "learn_classifier"][i % 4])
+        def f(cfg=cfg):
+            n, d = cfg["n"], cfg["d"]
+            z = rs.rand(n, 1) < 0.5
+            pr = np.where(z, rs.uniform(0.86, 0.96, size=d), rs.uniform(0.86 if cfg["storage"] == "float16" else 0.6, 0.93, size=d))
+            B = rs.rand(n, d) < pr
+            X = {"float16": lambda: B.astype(np.float16), "float64-column-major": lambda: np.asfortranarray(B.astype(np.float64)),
+                 "uint8": lambda: B.astype(np.uint8)}[cfg["storage"]]()
+            dists, doms = [Bernoulli] * d, [[0, 1]] * d
+            DECL["doms"] = doms
+            kw = dict(split_rows="random", split_cols="random", min_rows_slice=cfg["min_rows"], min_cols_slice=1,
+                      random_state=int(rs.randint(2 ** 31 - 1)), verbose=False)
+            if cfg["entry"] == "learn_spn":
+                from deeprob.spn.learning.learnspn import learn_spn
+                return learn_spn(X, dists, doms, learn_leaf="mle", **kw), d, None
+            if cfg["entry"] == "learn_estimator":
+                return learn_estimator(X, dists, doms, learn_leaf="mle", **kw), d, None
+            return learn_classifier(X, dists, doms, class_idx=d - 1, learn_leaf="mle", **kw), d, None
+        out.append(("learnspn" if cfg["entry"] == "learn_spn" else "wrapper", cfg, f, False))
     return out
 
 
@@ -334,7 +364,7 @@ def main(tier, seed, replay=None):
         print(open(replay).read()[:3000])
     rep.cov["rule"] = ("learn_spn over all built-in row splitters (kmeans,gmm,rdc,random,kmeans_mb,dbscan,wald) x column splitters (gvs,rgvs,wrgvs,ebvs,gbvs,rdc,random) "
                        "x leaf learners (mle,isotonic,binary-clt) x thresholds on binary/categorical/continuous/mixed data with constant, duplicated and cluster-wise constant columns, "
-                       "5-150(300) rows; learn_estimator / learn_classifier; learn_xpc / learn_expc over det x sd x conj_len x arity x min_part_inst x seeds; "
+                       "5-150(300) rows; tall binary tables (70-160 thousand rows) stored as float16 / column-major float64 / uint8; learn_estimator / learn_classifier; learn_xpc / learn_expc over det x sd x conj_len x arity x min_part_inst x seeds; "
                        "one evaluation = one returned circuit checked by the verified checker inside Coq; non-trivial = more than one node; distinct by configuration + circuit hash")
     C.clean_gen(PID)
     return rep.finish("proof")
